@@ -1207,12 +1207,197 @@ pub fn run_c16a(ctx: &Ctx, acc_out: &mut Acc) {
     acc_out.merge(acc);
 }
 
+
+// ------------------------------------------------------------------------------------------- C16 (a'): reciprocal faults
+//
+// With f64 the returned inverse is as good as the f64 evaluation of its own residual, so a wrong verdict of the stability
+// test is hidden below the rigorous rounding bound. Here the ENVIRONMENT deviates instead: the generic routine runs on the
+// tracking scalar `Tr` (f64 arithmetic) whose reciprocal answers `factor / x` at one designated `inv()` call (or at all of
+// them). The returned inverse is then wrong at the 2^-10 .. 2^-20 level, its exact L21 distance is many orders above the
+// rounding bound of the residual's evaluation, and "Ok only if distance <= tol" is decidable for tolerances taken at
+// fractions of that distance.
+
+fn call_decompose_tr(n: usize, data: &[f64], tol: Option<f64>, fault: Option<(usize, f64)>) -> DecompObs {
+    use crate::scalar::{set_inv_fault, Tr};
+    let st = TropicalSamplingSettings { matrix_stability_test: tol, print_debug_info: false, return_metadata: false };
+    let r = catch_unwind(AssertUnwindSafe(|| {
+        let mut m = SquareMatrix::new_zeros_from_num(&Tr::new(0.0, 0), n);
+        for i in 0..n {
+            for j in 0..n {
+                m[(i, j)] = Tr::new(data[i * n + j], 0);
+            }
+        }
+        set_inv_fault(fault);
+        let r = m.decompose_for_tropical(&st);
+        set_inv_fault(None);
+        r
+    }));
+    set_inv_fault(None);
+    let fl = |m: &SquareMatrix<Tr>| {
+        let mut v = Vec::with_capacity(n * n);
+        for i in 0..n {
+            for j in 0..n {
+                v.push(m[(i, j)].v);
+            }
+        }
+        v
+    };
+    match r {
+        Ok(Ok(d)) => DecompObs::Ok(Decomp { determinant: d.determinant.v, inverse: fl(&d.inverse), q_t: fl(&d.q_transposed), q_t_inv: fl(&d.q_transposed_inverse) }),
+        Ok(Err(MatrixError::ZeroDet)) => DecompObs::ZeroDet,
+        Ok(Err(MatrixError::Unstable)) => DecompObs::Unstable,
+        Err(e) => DecompObs::Panic(panic_message(e)),
+    }
+}
+
+/// rigorous first-order bound of the f64 evaluation of ||inv*M - I||_{2,1} (any summation order), see check_failure_reporting
+fn l21_rounding_bound(n: usize, inverse: &[f64], data: &[f64]) -> f64 {
+    let u = 2f64.powi(-53);
+    let mut bound = 0.0f64;
+    for j in 0..n {
+        let mut col = 0.0f64;
+        for i in 0..n {
+            let mut sabs = if i == j { 1.0 } else { 0.0 };
+            for k in 0..n {
+                sabs += (inverse[i * n + k] * data[k * n + j]).abs();
+            }
+            let e = (n as f64 + 2.0) * u * sabs;
+            col += e * e;
+        }
+        bound += col.sqrt();
+    }
+    bound
+}
+
+pub const FAULT_FACTORS: [f64; 3] = [1.0 + 1.0 / 1024.0, 1.0 - 1.0 / 1024.0, 1.0 + 1.0 / 1048576.0];
+const FAULT_FRACTIONS: usize = 32;
+
+/// one (matrix, fault) pair: all tolerances d*k/32 (k = 1..31) and next_down(d)
+pub fn check_reciprocal_fault(n: usize, data: &[f64], which: usize, factor: f64, acc: &mut Acc, class: &str) {
+    acc.inc("evaluations");
+    acc.inc("reciprocal_fault_runs");
+    let base = match call_decompose_tr(n, data, None, Some((which, factor))) {
+        DecompObs::Ok(d) => d,
+        _ => {
+            acc.inc("reciprocal_fault_not_ok_without_test");
+            return;
+        }
+    };
+    if base.inverse.iter().any(|x| !x.is_finite()) {
+        return;
+    }
+    let (Some(iv), Some(m)) = (QMat::from_f64(n, &base.inverse), QMat::from_f64(n, data)) else { return };
+    let dist = l21_exact(&iv, &m);
+    let u = 2f64.powi(-53);
+    let slack = 2.0 * l21_rounding_bound(n, &base.inverse, data) + 8.0 * u * dist;
+    acc.max(&format!("c16_fault_distance_over_slack[{class}]"), dist / slack);
+    if !(dist > 64.0 * slack) {
+        acc.inc("reciprocal_fault_not_decisive");
+        return;
+    }
+    acc.inc("reciprocal_fault_decisive");
+    let mut tols: Vec<f64> = (1..FAULT_FRACTIONS).map(|k| dist * k as f64 / FAULT_FRACTIONS as f64).collect();
+    tols.push(dist * (1.0 - 1.0 / 1024.0));
+    for t in tols {
+        if !(dist - t > slack) {
+            continue;
+        }
+        acc.inc("evaluations");
+        acc.inc("reciprocal_fault_tolerances_judged");
+        let obs = call_decompose_tr(n, data, Some(t), Some((which, factor)));
+        if let DecompObs::Ok(d) = obs {
+            // the inverse is the one judged above (the routine is deterministic); if it is not, judge the one returned
+            let dist2 = match QMat::from_f64(n, &d.inverse) {
+                Some(iv2) => l21_exact(&iv2, &m),
+                None => f64::INFINITY,
+            };
+            if dist2 - t > slack {
+                let mut case = matrix_case(n, data, Some(t));
+                case["fault"] = json!({"inv_call": if which == usize::MAX { -1i64 } else { which as i64 }, "factor": jf(factor)});
+                acc.violate(
+                    format!("C16/ok-beyond-tolerance-under-reciprocal-fault/{}/call={}/f={}/tol={}", mkey(n, data), which as i64, bits(factor), bits(t)),
+                    "Ok only if L21 distance <= tol (scalar with an inexact reciprocal)",
+                    format!("Ok although the exact L21 distance {dist2:e} of the returned inverse exceeds tol {t:e} by {:.1} times the rounding slack (reciprocal of pivot {} answered {factor}/x)", (dist2 - t) / slack, which as i64),
+                    case,
+                );
+            }
+        }
+    }
+}
+
+pub fn run_c16_faults(ctx: &Ctx, acc_out: &mut Acc) {
+    let mut mats: Vec<(String, usize, Vec<f64>)> = vec![];
+    // well-conditioned SPD matrices: dense, arrowhead, tridiagonal, graph L matrices at the centre of the hypercube
+    for n in 2..=(if ctx.tier == Tier::Quick { 6usize } else { 8 }) {
+        let mut dense = vec![0.0; n * n];
+        let mut arrow = vec![0.0; n * n];
+        let mut tri = vec![0.0; n * n];
+        let mut graded = vec![0.0; n * n];
+        for i in 0..n {
+            for j in 0..n {
+                dense[i * n + j] = if i == j { n as f64 + 1.0 + 0.25 * i as f64 } else { 1.0 / (1.0 + (i as f64 - j as f64).abs()) };
+                arrow[i * n + j] = if i == j { 4.0 + i as f64 } else if i == 0 || j == 0 { 1.0 } else { 0.0 };
+                tri[i * n + j] = if i == j { 2.5 } else if (i as i64 - j as i64).abs() == 1 { -1.0 } else { 0.0 };
+                graded[i * n + j] = if i == j { 4f64.powi(i as i32) * 3.0 } else { 2f64.powi((i + j) as i32) * 0.5 };
+            }
+        }
+        for (nm, d) in [("dense", dense), ("arrow", arrow), ("tridiagonal", tri), ("graded", graded)] {
+            // both orders of the rows/columns (residual above or below the diagonal)
+            let rev: Vec<usize> = (0..n).rev().collect();
+            mats.push((format!("{nm}{n}r"), n, permuted(n, &d, &rev)));
+            mats.push((format!("{nm}{n}"), n, d));
+        }
+    }
+    for (name, n, d) in graph_l_matrices(ctx.tier) {
+        if n >= 2 {
+            mats.push((name, n, d));
+        }
+    }
+    let items: Vec<(usize, usize, f64)> = mats
+        .iter()
+        .enumerate()
+        .flat_map(|(mi, (_, n, _))| {
+            let mut v = vec![];
+            for &f in &FAULT_FACTORS {
+                for k in 0..*n {
+                    v.push((mi, k, f));
+                }
+                v.push((mi, usize::MAX, f));
+            }
+            v
+        })
+        .collect();
+    let acc = par_for(items.len(), |i, acc| {
+        let (mi, k, f) = items[i];
+        let (_, n, d) = &mats[mi];
+        check_reciprocal_fault(*n, d, k, f, acc, "reciprocal-fault");
+    });
+    acc_out.merge(acc);
+}
+
 pub fn replay_matrix(ctx: &Ctx, case: &Value) -> i32 {
     let n = case["n"].as_u64().unwrap() as usize;
     let data = unjf_vec(&case["data"]);
     let tol = if case["tol"].is_null() { None } else { Some(unjf(&case["tol"])) };
     let mut acc = Acc::new();
     eprintln!("matrix {n}x{n} {:?} tol {:?}", data, tol);
+    if !case["fault"].is_null() {
+        let k = case["fault"]["inv_call"].as_i64().unwrap();
+        let which = if k < 0 { usize::MAX } else { k as usize };
+        let factor = unjf(&case["fault"]["factor"]);
+        let mut acc = Acc::new();
+        eprintln!("reciprocal fault: inv() call {k} answers {factor}/x; observed: {:?}", call_decompose_tr(n, &data, tol, Some((which, factor))));
+        check_reciprocal_fault(n, &data, which, factor, &mut acc, "replay");
+        for v in &acc.violations {
+            eprintln!("  reproduced: [{}] {}", v.clause, v.what);
+        }
+        return if acc.violations.is_empty() {
+            eprintln!("  no violation reproduced");
+            0
+        } else {
+            1
+        };
+    }
     eprintln!("observed: {:?}", call_decompose(n, &data, tol));
     if ctx.prop == "C15" {
         check_spd(n, &data, &mut acc, "replay");
@@ -1659,6 +1844,7 @@ fn _unused(_: &Q) -> bool {
 pub fn run_c16(ctx: &Ctx) -> i32 {
     let mut acc = Acc::new();
     run_c16a(ctx, &mut acc);
+    run_c16_faults(ctx, &mut acc);
     let b = crate::sampler::c16b_pass(ctx);
     acc.merge(b);
     acc.violations
